@@ -48,6 +48,9 @@ CHECKS = {
  "C15": dict(cat="exploration", tech="metamorphic determinism testing: the same generated requests in child processes under different PYTHONHASHSEED values and request orders (sha1 of text must agree), CLI-vs-library differential through CliRunner, and model-based cache histories (equal spellings vs near-misses, cache_clear) checked against isolated runs and a harness-side canonical key",
    text="Generated requests produce byte-identical text in every process, hash seed and order; the CLI prints or writes exactly the library text with unmentioned tensors dense; in generated call histories every result equals the same request on a cleared cache and a cache hit occurs only for a request whose canonical key was seen since the last clear.",
    note="Trusted: sha1 as text identity; the harness's canonical key (tree printed by the harness, formats as (modes, ordering)).", ref="DESIGN.md §3 C15"),
+ "C16": dict(cat="exploration", tech="metamorphic property-based testing on the IR abstract machine: problems constructed to have a qualifying index class, its dimension scaled x1/x10/x100/x10^4 with the stored entries unchanged; executed statement and loop-iteration counters must be equal and the stored result identical",
+   text="For every generated problem with an index that all operands and the output store only in compressed levels and that every additive term mentions, enlarging that dimension (together with its alias class) leaves the executed step count and the result unchanged. Exploration within bounds; no absolute cost model is needed.",
+   note="Trusted: abstract-machine counters as the measure of work; the harness's monomial expansion for the 'every term mentions the index' precondition.", ref="DESIGN.md §3 C16"),
 }
 def main():
     checks = []
